@@ -9,6 +9,7 @@ import (
 	"github.com/pion/rtp"
 
 	"verif/mc"
+	"verif/ref"
 )
 
 func init() {
@@ -18,6 +19,8 @@ func init() {
 		Assumptions: []string{
 			"fixed-header lies: first byte all 256 values x second byte {00,FF} x every total length 0..(length the first byte claims)+6 x 3 fill patterns",
 			"extension-block lies: CC {0,1,15} x P x profile {BEDE,1000,1001,0000,FFFF} x length field {0,1,2,3,0xFFFF} x every body string up to 4 bytes (quick) / 5 bytes (thorough) over a 13-symbol alphabet of pad/element-header/boundary bytes x 9 tails (RTP padding counts 0,1,2,5,len,255 ...)",
+			"large length fields: X=1 with profile {BEDE,1000,1234}, extension length field {0x3FFF,0x4000,0x4001,0x8000,0xFFFF} words and an input that is 1 byte short of / exactly / 5 or 1300 bytes longer than the claimed block, body of zero bytes, pattern bytes or one maximal element chain, P bit on/off",
+			"when the strict reference parser accepts an input (and no id-15 element is involved) header length, payload, padding size and every extension value are compared with the RFC layout",
 			"mutations: every truncation and every single-byte replacement by {00,01,0F,10,7F,80,FF,b^01,b^80} of the wire images of the C01 reduced space",
 			"histories: a corpus of one representative per outcome class (about 250 inputs); all ordered pairs, and all triples over the first 40 (quick) / 90 (thorough)",
 			"result of a reused receiver = return values and, on success, version/P/X/M/PT/seq/ts/SSRC, CSRC list, profile+ids+values if X, payload, padding size, and the re-marshalled bytes; state after a failed decode, nil vs empty slices and a stale ExtensionProfile while X is clear are not part of the result",
@@ -25,6 +28,7 @@ func init() {
 		Scenarios: []mc.Scenario{
 			{Name: "fixed-header-lies", Tiers: "qt", ShardDepth: 2, Run: c02FixedHeader},
 			{Name: "extension-block-lies", Tiers: "qt", ShardDepth: 5, Run: c02ExtBlock},
+			{Name: "large-length-fields", Tiers: "qt", ShardDepth: 3, Run: c02Large},
 			{Name: "mutations-of-valid-images", Tiers: "qt", ShardDepth: 4, Run: c02Mutations},
 			{Name: "reuse-pairs", Tiers: "qt", ShardDepth: 2, Run: c02Pairs},
 			{Name: "reuse-triples", Tiers: "qt", ShardDepth: 2, Run: c02Triples},
@@ -83,6 +87,28 @@ func c02Decode(c *mc.Ctx, buf []byte) (string, bool) {
 	// header fields agree between the two entry points
 	if d := headerProj(&h).diff(headerProj(&p.Header)); d != "" {
 		c.Failf("header-vs-packet", "Unmarshal(%s): Header.Unmarshal and Packet.Unmarshal disagree: %s", hx(buf), d)
+	}
+	// when the input is a well-formed packet under the strict reference parser, "the
+	// corresponding input bytes" are known exactly
+	if rp, err := ref.Parse(buf); err == nil && !rp.Terminated {
+		if n != rp.HeaderLen {
+			c.Failf("header-length-differs-from-layout", "Unmarshal(%s): header length %d, the RFC layout gives %d", hx(buf), n, rp.HeaderLen)
+		}
+		if !bytes.Equal(p.Payload, rp.Payload) || int(p.PaddingSize) != rp.PadSize {
+			c.Failf("payload-not-input-bytes", "Unmarshal(%s): payload %s padding %d, the RFC layout gives %s / %d", hx(buf), hx(p.Payload), p.PaddingSize, hx(rp.Payload), rp.PadSize)
+		}
+		if p.Extension {
+			seen := map[uint8]bool{}
+			for _, e := range rp.Elems {
+				if seen[e.ID] {
+					continue
+				}
+				seen[e.ID] = true
+				if got := p.GetExtension(e.ID); !bytes.Equal(got, e.Val) {
+					c.Failf("value-not-input-bytes", "Unmarshal(%s): value of id %d = %s, the RFC layout gives %s", hx(buf), e.ID, hx(got), hx(e.Val))
+				}
+			}
+		}
 	}
 	cls := fmt.Sprintf("ok x=%v", p.Extension)
 	if p.Extension {
@@ -365,6 +391,10 @@ type c02Result struct {
 	hm, pm []byte
 	hmErr  bool
 	pmErr  bool
+
+	probeErr bool
+	probe    proj
+	probeM   []byte
 }
 
 func c02Observe(h *rtp.Header, p *rtp.Packet, buf []byte) c02Result {
@@ -382,6 +412,16 @@ func c02Observe(h *rtp.Header, p *rtp.Packet, buf []byte) c02Result {
 		r.pp = project(p)
 		m, e := p.Marshal()
 		r.pm, r.pmErr = m, e != nil
+		// probe: what the decoded value does next must not depend on the receiver's past either
+		q := p.Clone()
+		id := uint8(5)
+		if q.Extension && q.ExtensionProfile != 0xBEDE && q.ExtensionProfile != 0x1000 {
+			id = 0
+		}
+		perr := q.SetExtension(id, []byte{0x5A, 0x5B, 0x5C, 0x5D})
+		r.probeErr = perr != nil
+		r.probe = project(q)
+		r.probeM, _ = q.Marshal()
 	}
 	return r
 }
@@ -409,6 +449,15 @@ func (a c02Result) diff(b c02Result) string {
 		}
 		if a.pmErr != b.pmErr || !bytes.Equal(a.pm, b.pm) {
 			return fmt.Sprintf("Packet re-marshals to %s vs %s", hx(a.pm), hx(b.pm))
+		}
+		if a.probeErr != b.probeErr {
+			return fmt.Sprintf("a following SetExtension fails %v vs %v", a.probeErr, b.probeErr)
+		}
+		if d := a.probe.diff(b.probe); d != "" {
+			return "after a following SetExtension: " + d
+		}
+		if !bytes.Equal(a.probeM, b.probeM) {
+			return fmt.Sprintf("after a following SetExtension the packet marshals to %s vs %s", hx(a.probeM), hx(b.probeM))
 		}
 	}
 	return ""
@@ -463,4 +512,51 @@ func c02Triples(c *mc.Ctx) {
 		k = n
 	}
 	c02History(c, []int{c.Pick(k), c.Pick(k), c.Pick(k)})
+}
+
+func c02Large(c *mc.Ctx) {
+	profile := mc.From(c, []uint16{0xBEDE, 0x1000, 0x1234})
+	words := mc.From(c, []int{0x3FFF, 0x4000, 0x4001, 0x8000, 0xFFFF})
+	extra := mc.From(c, []int{-1, 0, 5, 1300})
+	content := c.Pick(3)
+	pbit := c.Bool()
+	cc := mc.From(c, []int{0, 2})
+	total := 12 + 4*cc + 4 + 4*words + extra
+	buf := make([]byte, total)
+	buf[0] = 0x90 | byte(cc)
+	if pbit {
+		buf[0] |= 0x20
+	}
+	buf[1] = 0x60
+	o := 12 + 4*cc
+	binary.BigEndian.PutUint16(buf[o:], profile)
+	binary.BigEndian.PutUint16(buf[o+2:], uint16(words))
+	body := buf[o+4:]
+	switch content {
+	case 1:
+		for i := range body {
+			body[i] = byte(i*13 + 1)
+		}
+	case 2: // a chain of maximal elements
+		for i := 0; i+18 <= len(body) && i < 4*words-18; {
+			if profile == 0x1000 {
+				body[i], body[i+1] = byte(1+i%250), 15
+				i += 17
+			} else {
+				body[i] = 0x1F
+				i += 17
+			}
+		}
+	}
+	if pbit && total > 0 {
+		buf[total-1] = 3
+	}
+	if c.Verbose() {
+		c.Notef("profile %#04x length field %#x words, input %d bytes (%+d relative to the claimed block), content %d, P=%v", profile, words, total, extra, content, pbit)
+	}
+	cls, ok := c02Decode(c, buf)
+	if ok {
+		c.NonTrivial()
+	}
+	c.Outcome(cls)
 }
